@@ -94,7 +94,7 @@ def run_unit(unit, cfg, profile_name="default", extra_args=None, canary=False, s
     os.makedirs(os.path.join(BUILD, unit), exist_ok=True)
     try:
         kd = cfg.get("expected_not_under_contract")
-        text, origins, log = template.build(vc_path, REPO, cfg.get("defines", {}), canary=canary, known_drops=set(kd) if kd is not None else None, strip=strip)
+        text, origins, log = template.build(vc_path, REPO, cfg.get("defines", {}), canary=canary, known_drops=set(kd) if kd is not None else None, strip=strip, loop_shapes=cfg.get("expected_loop_shapes"))
         if canary:
             r.canaries = {"expected": log.canaries}
     except (template.TemplateError, template.ScanError, template.macroexp.MacroError) as e:
